@@ -136,6 +136,12 @@ func Regimes() (map[string]*RegimeInfo, []string) {
 }
 
 // Retained reports whether a category is a retained one in a regime.
+// HasRegime reports whether a regime is published for the country.
+func HasRegime(country string) bool {
+	rs, _ := Regimes()
+	return rs[country] != nil
+}
+
 func Retained(country, cat string) bool {
 	rs, _ := Regimes()
 	if r := rs[country]; r != nil {
